@@ -1,4 +1,1009 @@
-(** C19 — lemmas. *)
+(** C19 — lemmas.  Part 1: the inductive invariant of the manager. *)
 From Coq Require Import List NArith Bool Arith Lia.
 From SV Require Import Common.Slab C19.Model.
 Import ListNotations.
+
+Ltac case_if := match goal with |- context [if ?c then _ else _] => destruct c eqn:? end.
+Ltac inv H := inversion H; subst; clear H.
+
+(* ------------------------------------------------------------ the table *)
+
+Lemma addr_eqb_eq a b : addr_eqb a b = true <-> a = b.
+Proof. unfold addr_eqb. destruct (addr_eq_dec a b); split; congruence. Qed.
+Lemma addr_eqb_refl a : addr_eqb a a = true.
+Proof. apply addr_eqb_eq. reflexivity. Qed.
+Lemma addr_eqb_neq a b : addr_eqb a b = false <-> a <> b.
+Proof. unfold addr_eqb. destruct (addr_eq_dec a b); split; congruence. Qed.
+
+Lemma tget_tremove t k k' : tget (tremove t k) k' = if addr_eqb k k' then None else tget t k'.
+Proof.
+  unfold tremove. induction t as [|[k0 v] t IH]; cbn.
+  - destruct (addr_eqb k k'); reflexivity.
+  - destruct (addr_eqb k0 k) eqn:E0; cbn.
+    + apply addr_eqb_eq in E0. subst k0. rewrite IH.
+      destruct (addr_eqb k k'); reflexivity.
+    + rewrite IH. destruct (addr_eqb k0 k') eqn:E1; auto.
+      apply addr_eqb_eq in E1. subst k0.
+      destruct (addr_eqb k k') eqn:E2; auto.
+      apply addr_eqb_eq in E2. subst k. rewrite addr_eqb_refl in E0. discriminate.
+Qed.
+
+Lemma tget_tinsert t k v k' : tget (tinsert t k v) k' = if addr_eqb k k' then Some v else tget t k'.
+Proof.
+  unfold tinsert. cbn. destruct (addr_eqb k k') eqn:E; auto.
+  rewrite tget_tremove, E. reflexivity.
+Qed.
+
+Lemma opt_nat_eqb_eq a b : opt_nat_eqb a b = true <-> a = b.
+Proof.
+  destruct a, b; cbn; try (split; congruence).
+  rewrite Nat.eqb_eq. split; congruence.
+Qed.
+Lemma opt_N_eqb_eq a b : opt_N_eqb a b = true <-> a = b.
+Proof.
+  destruct a, b; cbn; try (split; congruence).
+  rewrite N.eqb_eq. split; congruence.
+Qed.
+
+Lemma phase_eqb_eq a b : phase_eqb a b = true <-> a = b.
+Proof. destruct a, b; cbn; split; congruence. Qed.
+
+(* ------------------------------------------------------- min_deadline *)
+
+Definition md_step (acc : option N) (kf : nat * flow) : option N :=
+  if phase_eqb (f_phase (snd kf)) Closing then acc else opt_min acc (f_deadline (snd kf)).
+
+Lemma md_fold_spec l : forall acc r,
+  fold_left md_step l acc = r ->
+  match r with
+  | None => acc = None /\ (forall kf, In kf l -> f_phase (snd kf) = Closing)
+  | Some d =>
+    (acc = Some d \/ exists kf, In kf l /\ f_phase (snd kf) <> Closing /\ f_deadline (snd kf) = d) /\
+    (forall a, acc = Some a -> (d <= a)%N) /\
+    (forall kf, In kf l -> f_phase (snd kf) <> Closing -> (d <= f_deadline (snd kf))%N)
+  end.
+Proof.
+  induction l as [|kf l IH]; intros acc r Hr; cbn in Hr.
+  - subst r. destruct acc as [a|].
+    + split; [left; reflexivity|]. split.
+      * intros a' E. inv E. lia.
+      * intros kf [].
+    + split; [reflexivity | intros kf []].
+  - specialize (IH _ _ Hr).
+    destruct (phase_eqb (f_phase (snd kf)) Closing) eqn:Ep.
+    + assert (md_step acc kf = acc) as Hm by (unfold md_step; rewrite Ep; reflexivity).
+      rewrite Hm in IH. clear Hm.
+      apply phase_eqb_eq in Ep. destruct r as [d|].
+      * destruct IH as (H1 & H2 & H3). split; [|split].
+        -- destruct H1 as [H1|(kf' & Hin & Hp & Hd)]; [left; exact H1|].
+           right. exists kf'. split; [right; exact Hin | split; assumption].
+        -- exact H2.
+        -- intros kf' [<-|Hin] Hp; [congruence | apply H3; assumption].
+      * destruct IH as (H1 & H2). split; [exact H1|].
+        intros kf' [<-|Hin]; [exact Ep | apply H2; exact Hin].
+    + assert (md_step acc kf = opt_min acc (f_deadline (snd kf))) as Hm
+          by (unfold md_step; rewrite Ep; reflexivity).
+      rewrite Hm in IH. clear Hm.
+      assert (f_phase (snd kf) <> Closing) as Hnc.
+      { intros E. apply phase_eqb_eq in E. congruence. }
+      destruct r as [d|].
+      * destruct IH as (H1 & H2 & H3).
+        assert (d <= f_deadline (snd kf))%N as Hle.
+        { destruct acc as [a|]; cbn in H2.
+          - specialize (H2 _ eq_refl). lia.
+          - specialize (H2 _ eq_refl). lia. }
+        split; [|split].
+        -- destruct H1 as [H1|(kf' & Hin & Hp & Hd)].
+           ++ destruct acc as [a|]; cbn in H1; inv H1.
+              ** destruct (N.le_ge_cases a (f_deadline (snd kf))) as [Hc|Hc].
+                 --- left. f_equal. lia.
+                 --- right. exists kf. split; [left; reflexivity|]. split; [exact Hnc|]. lia.
+              ** right. exists kf. split; [left; reflexivity|]. split; [exact Hnc|reflexivity].
+           ++ right. exists kf'. split; [right; exact Hin | split; assumption].
+        -- intros a E. subst acc. cbn in H2. specialize (H2 _ eq_refl). lia.
+        -- intros kf' [<-|Hin] Hp; [exact Hle | apply H3; assumption].
+      * destruct IH as (H1 & _). destruct acc; discriminate.
+Qed.
+
+Lemma min_deadline_unfold s : min_deadline s = fold_left md_step (sitems s) None.
+Proof. reflexivity. Qed.
+
+Lemma min_deadline_some s d :
+  min_deadline s = Some d ->
+  (exists id f, sget s id = Some f /\ f_phase f <> Closing /\ f_deadline f = d) /\
+  (forall id f, sget s id = Some f -> f_phase f <> Closing -> (d <= f_deadline f)%N).
+Proof.
+  intros H. rewrite min_deadline_unfold in H. apply md_fold_spec in H.
+  destruct H as (H1 & _ & H3). split.
+  - destruct H1 as [H1|((id, f) & Hin & Hp & Hd)]; [discriminate|].
+    exists id, f. split; [apply sitems_spec; exact Hin | split; assumption].
+  - intros id f Hg Hp. apply (H3 (id, f)); [apply sitems_spec; exact Hg | exact Hp].
+Qed.
+
+Lemma min_deadline_none s :
+  min_deadline s = None -> forall id f, sget s id = Some f -> f_phase f = Closing.
+Proof.
+  intros H id f Hg. rewrite min_deadline_unfold in H. apply md_fold_spec in H.
+  destruct H as (_ & H). apply (H (id, f)). apply sitems_spec. exact Hg.
+Qed.
+
+(* ------------------------------------------------------- the invariant *)
+
+Definition own_key (f : flow) : addr := key_of (f_client f) (c_with_port (f_cfg f)).
+
+Definition phase_ok (f : flow) : Prop :=
+  match f_phase f with
+  | Awaiting => f_backend_addr f = None /\ f_pending f <> None
+  | Established => f_backend_addr f <> None /\ f_pending f = None
+  | Closing => False
+  end.
+
+(** Everything [check_invariants] (manager.rs:685) asserts, and more:
+    - [inv_tab_slab]/[inv_slab_tab]: the table and the slab are in bijection
+      through each flow's OWN admission key (clauses 1, 2, plus: no orphan flow)
+    - [inv_phase]: clauses 4 and 5 (no Closing flow; Established <-> backend)
+    - [inv_caps]: clause 7 in its strong form: no live flow has an exhausted cap
+    - [inv_armed]: clause 6: the armed deadline is the minimum flow deadline
+    - [inv_hw]: the high-water bound. *)
+Record Inv (m : mgr) : Prop := {
+  inv_wf : slab_wf (m_flows m);
+  inv_tab_slab : forall k id, tget (m_table m) k = Some id ->
+                   exists f, sget (m_flows m) id = Some f /\ own_key f = k;
+  inv_slab_tab : forall id f, sget (m_flows m) id = Some f -> tget (m_table m) (own_key f) = Some id;
+  inv_phase : forall id f, sget (m_flows m) id = Some f -> phase_ok f;
+  inv_caps : forall id f, sget (m_flows m) id = Some f -> teardown_due f = false;
+  inv_armed : m_armed m = min_deadline (m_flows m);
+  inv_hw : (N.of_nat (slen (m_flows m)) <= m_hw m)%N /\ (m_max_flows m <= m_hw m)%N;
+  inv_inc : forall id f, sget (m_flows m) id = Some f -> (f_inc f < m_ninc m)%N;
+  inv_inc_inj : forall id1 id2 f1 f2, sget (m_flows m) id1 = Some f1 -> sget (m_flows m) id2 = Some f2 ->
+                  f_inc f1 = f_inc f2 -> id1 = id2;
+}.
+
+(** the three state shapes every entry point ends in *)
+Definition rearmed (m : mgr) : mgr := set_armed m (min_deadline (m_flows m)).
+Definition updated (m : mgr) (id : nat) (f' : flow) : mgr :=
+  rearmed (set_flows m (sset (m_flows m) id f')).
+Definition removed (m : mgr) (id : nat) (f : flow) : mgr :=
+  rearmed (set_flows (set_table m (tremove (m_table m) (own_key f))) (sremove (m_flows m) id)).
+
+Definition arms (o : list lout) : Prop := Forall (fun x => exists d, x = (None, ArmTimer d)) o.
+
+Lemma reschedule_spec m : exists o, reschedule m = (rearmed m, o) /\ arms o.
+Proof.
+  unfold reschedule, rearmed. destruct (opt_N_eqb _ _) eqn:E.
+  - apply opt_N_eqb_eq in E. exists []. split; [|constructor].
+    rewrite E. destruct m; reflexivity.
+  - destruct (min_deadline (m_flows m)) as [d|].
+    + exists [(None, ArmTimer d)]. split; [reflexivity|]. constructor; [eauto|constructor].
+    + exists []. split; [reflexivity|constructor].
+Qed.
+
+(** same client, config and incarnation: what every in-place update preserves *)
+Definition same_id (f f' : flow) : Prop :=
+  f_client f' = f_client f /\ f_cfg f' = f_cfg f /\ f_inc f' = f_inc f.
+
+Lemma Inv_rearmed m :
+  slab_wf (m_flows m) ->
+  (forall k id, tget (m_table m) k = Some id -> exists f, sget (m_flows m) id = Some f /\ own_key f = k) ->
+  (forall id f, sget (m_flows m) id = Some f -> tget (m_table m) (own_key f) = Some id) ->
+  (forall id f, sget (m_flows m) id = Some f -> phase_ok f) ->
+  (forall id f, sget (m_flows m) id = Some f -> teardown_due f = false) ->
+  ((N.of_nat (slen (m_flows m)) <= m_hw m)%N /\ (m_max_flows m <= m_hw m)%N) ->
+  (forall id f, sget (m_flows m) id = Some f -> (f_inc f < m_ninc m)%N) ->
+  (forall id1 id2 f1 f2, sget (m_flows m) id1 = Some f1 -> sget (m_flows m) id2 = Some f2 ->
+                  f_inc f1 = f_inc f2 -> id1 = id2) ->
+  Inv (rearmed m).
+Proof. intros. constructor; cbn; auto. Qed.
+
+Lemma Inv_updated m id f f' :
+  Inv m -> sget (m_flows m) id = Some f -> same_id f f' -> phase_ok f' -> teardown_due f' = false ->
+  Inv (updated m id f').
+Proof.
+  intros HI Hg (Hc & Hcfg & Hinc) Hp Ht. unfold updated.
+  assert (own_key f' = own_key f) as Hk by (unfold own_key; rewrite Hc, Hcfg; reflexivity).
+  apply Inv_rearmed; cbn.
+  - apply sset_wf. apply HI.
+  - intros k j Hj. destruct (inv_tab_slab _ HI _ _ Hj) as (g & Hg1 & Hg2).
+    rewrite sget_sset. destruct (Nat.eqb j id) eqn:E.
+    + apply Nat.eqb_eq in E. subst j. rewrite Hg. exists f'. split; [reflexivity|]. congruence.
+    + exists g. auto.
+  - intros j g. rewrite sget_sset. destruct (Nat.eqb j id) eqn:E.
+    + apply Nat.eqb_eq in E. subst j. rewrite Hg. intros H. inv H. rewrite Hk.
+      apply (inv_slab_tab _ HI). exact Hg.
+    + apply (inv_slab_tab _ HI).
+  - intros j g. rewrite sget_sset. destruct (Nat.eqb j id) eqn:E.
+    + rewrite Nat.eqb_eq in E. subst j. rewrite Hg. intros H. inv H. exact Hp.
+    + apply (inv_phase _ HI).
+  - intros j g. rewrite sget_sset. destruct (Nat.eqb j id) eqn:E.
+    + rewrite Nat.eqb_eq in E. subst j. rewrite Hg. intros H. inv H. exact Ht.
+    + apply (inv_caps _ HI).
+  - rewrite slen_sset. apply HI.
+  - intros j g. rewrite sget_sset. destruct (Nat.eqb j id) eqn:E.
+    + rewrite Nat.eqb_eq in E. subst j. rewrite Hg. intros H. inv H. rewrite Hinc.
+      apply (inv_inc _ HI _ _ Hg).
+    + apply (inv_inc _ HI).
+  - intros j1 j2 g1 g2. rewrite !sget_sset.
+    destruct (Nat.eqb j1 id) eqn:E1; destruct (Nat.eqb j2 id) eqn:E2;
+      rewrite ?Nat.eqb_eq in *; subst; rewrite ?Hg; intros H1 H2 He.
+    + reflexivity.
+    + inv H1. rewrite Hinc in He. apply (inv_inc_inj _ HI _ _ _ _ Hg H2 He).
+    + inv H2. rewrite Hinc in He. apply (inv_inc_inj _ HI _ _ _ _ H1 Hg He).
+    + apply (inv_inc_inj _ HI _ _ _ _ H1 H2 He).
+Qed.
+
+Lemma Inv_removed m id f :
+  Inv m -> sget (m_flows m) id = Some f -> Inv (removed m id f).
+Proof.
+  intros HI Hg. unfold removed. apply Inv_rearmed; cbn.
+  - apply sremove_wf. apply HI.
+  - intros k j. rewrite tget_tremove. destruct (addr_eqb (own_key f) k) eqn:E; [discriminate|].
+    intros Hj. destruct (inv_tab_slab _ HI _ _ Hj) as (g & Hg1 & Hg2).
+    exists g. split; [|exact Hg2]. rewrite sget_sremove.
+    destruct (Nat.eqb j id) eqn:Ej; [|exact Hg1].
+    apply Nat.eqb_eq in Ej. subst j. rewrite Hg in Hg1. inv Hg1.
+    rewrite addr_eqb_refl in E. discriminate.
+  - intros j g. rewrite sget_sremove. destruct (Nat.eqb j id) eqn:Ej; [discriminate|].
+    intros Hj. rewrite tget_tremove. destruct (addr_eqb (own_key f) (own_key g)) eqn:E.
+    + apply addr_eqb_eq in E. pose proof (inv_slab_tab _ HI _ _ Hg) as H1.
+      pose proof (inv_slab_tab _ HI _ _ Hj) as H2. rewrite E in H1. rewrite H1 in H2. inv H2.
+      rewrite Nat.eqb_refl in Ej. discriminate.
+    + apply (inv_slab_tab _ HI). exact Hj.
+  - intros j g. rewrite sget_sremove. destruct (Nat.eqb j id); [discriminate|]. apply (inv_phase _ HI).
+  - intros j g. rewrite sget_sremove. destruct (Nat.eqb j id); [discriminate|]. apply (inv_caps _ HI).
+  - pose proof (slen_sremove _ _ Hg). destruct (inv_hw _ HI). split; [lia|assumption].
+  - intros j g. rewrite sget_sremove. destruct (Nat.eqb j id); [discriminate|]. apply (inv_inc _ HI).
+  - intros j1 j2 g1 g2. rewrite !sget_sremove.
+    destruct (Nat.eqb j1 id); [discriminate|]. destruct (Nat.eqb j2 id); [discriminate|].
+    apply (inv_inc_inj _ HI).
+Qed.
+
+Lemma phase_ok_not_closing f : phase_ok f -> phase_eqb (f_phase f) Closing = false.
+Proof. unfold phase_ok. destruct (f_phase f); cbn; tauto. Qed.
+
+(** [close_flow] in closed form *)
+Lemma close_flow_live m id f :
+  Inv m -> sget (m_flows m) id = Some f ->
+  exists o, close_flow m id =
+            (removed m id f, [(Some (f_inc f), Metric MEvicted); (Some (f_inc f), CloseFlow id)] ++ o)
+            /\ arms o.
+Proof.
+  intros HI Hg. unfold close_flow. rewrite Hg.
+  rewrite (phase_ok_not_closing _ (inv_phase _ HI _ _ Hg)).
+  pose proof (inv_slab_tab _ HI _ _ Hg) as Hown. fold (own_key f). rewrite Hown.
+  assert ((if opt_nat_eqb (tget (m_table m) (key_of (f_client f) (c_with_port (m_cluster m)))) (Some id)
+           then tremove (m_table m) (key_of (f_client f) (c_with_port (m_cluster m)))
+           else if opt_nat_eqb (Some id) (Some id) then tremove (m_table m) (own_key f) else m_table m)
+          = tremove (m_table m) (own_key f)) as ->.
+  { destruct (opt_nat_eqb (tget _ _) (Some id)) eqn:E.
+    - apply opt_nat_eqb_eq in E. destruct (inv_tab_slab _ HI _ _ E) as (g & Hg1 & Hg2).
+      rewrite Hg in Hg1. inv Hg1. rewrite Hg2. reflexivity.
+    - cbn. rewrite Nat.eqb_refl. reflexivity. }
+  destruct (reschedule_spec (set_flows (set_table m (tremove (m_table m) (own_key f))) (sremove (m_flows m) id)))
+    as (o & Ho & Harm).
+  rewrite Ho. exists o. split; [reflexivity | exact Harm].
+Qed.
+
+Lemma close_flow_dead m id : sget (m_flows m) id = None -> close_flow m id = (m, []).
+Proof. intros H. unfold close_flow. rewrite H. reflexivity. Qed.
+
+Lemma close_flow_inv m id : Inv m -> Inv (fst (close_flow m id)).
+Proof.
+  intros HI. destruct (sget (m_flows m) id) as [f|] eqn:Hg.
+  - destruct (close_flow_live _ _ _ HI Hg) as (o & -> & _). cbn. apply Inv_removed; assumption.
+  - rewrite close_flow_dead by assumption. exact HI.
+Qed.
+
+(** closing right after an in-place update of the same slot = closing *)
+Lemma removed_after_sset m id f f' :
+  sget (m_flows m) id = Some f -> same_id f f' ->
+  removed (set_flows m (sset (m_flows m) id f')) id f' = removed m id f.
+Proof.
+  intros Hg (Hc & Hcfg & Hinc). unfold removed, own_key. cbn.
+  rewrite sremove_sset, Hc, Hcfg. reflexivity.
+Qed.
+
+Lemma sget_sset_same (s : slab flow) id f f' : sget s id = Some f -> sget (sset s id f') id = Some f'.
+Proof. intros H. rewrite sget_sset, Nat.eqb_refl, H. reflexivity. Qed.
+
+(** an in-place update that leaves a cap exhausted is immediately followed by
+    [close_flow]; the intermediate state only has to satisfy the part of the
+    invariant [close_flow] relies on. *)
+Lemma close_flow_after_sset m id f f' :
+  Inv m -> sget (m_flows m) id = Some f -> same_id f f' -> f_phase f' <> Closing ->
+  exists o, close_flow (set_flows m (sset (m_flows m) id f')) id =
+            (removed m id f, [(Some (f_inc f), Metric MEvicted); (Some (f_inc f), CloseFlow id)] ++ o)
+            /\ arms o.
+Proof.
+  intros HI Hg Hs Hp. pose proof Hs as (Hc & Hcfg & Hinc).
+  unfold close_flow. cbn [m_flows set_flows m_table m_cluster].
+  rewrite (sget_sset_same _ _ _ _ Hg).
+  assert (phase_eqb (f_phase f') Closing = false) as ->.
+  { destruct (phase_eqb (f_phase f') Closing) eqn:E; auto. apply phase_eqb_eq in E. congruence. }
+  assert (own_key f' = own_key f) as Hk by (unfold own_key; rewrite Hc, Hcfg; reflexivity).
+  pose proof (inv_slab_tab _ HI _ _ Hg) as Hown. fold (own_key f'). rewrite Hk, Hown.
+  assert ((if opt_nat_eqb (tget (m_table m) (key_of (f_client f') (c_with_port (m_cluster m)))) (Some id)
+           then tremove (m_table m) (key_of (f_client f') (c_with_port (m_cluster m)))
+           else if opt_nat_eqb (Some id) (Some id) then tremove (m_table m) (own_key f) else m_table m)
+          = tremove (m_table m) (own_key f)) as ->.
+  { destruct (opt_nat_eqb (tget _ _) (Some id)) eqn:E.
+    - apply opt_nat_eqb_eq in E. destruct (inv_tab_slab _ HI _ _ E) as (g & Hg1 & Hg2).
+      rewrite Hg in Hg1. inv Hg1. rewrite Hg2. reflexivity.
+    - cbn. rewrite Nat.eqb_refl. reflexivity. }
+  match goal with |- context [reschedule ?x] => destruct (reschedule_spec x) as (o & Ho & Harm) end.
+  rewrite Ho. exists o. split; [|exact Harm].
+  rewrite Hinc. f_equal. unfold removed, rearmed. cbn. rewrite sremove_sset. reflexivity.
+Qed.
+
+(* ------------------------------------------------------------------ *)
+(** Part 2: every entry point, in closed form ("shape"). *)
+
+Definition evict_close (id : nat) (f : flow) : list lout :=
+  [(Some (f_inc f), Metric MEvicted); (Some (f_inc f), CloseFlow id)].
+
+(** what a forwarding site pushes before it re-arms or closes *)
+Inductive pre_ok (inp : input) (id : nat) (f f' : flow) : list lout -> Prop :=
+| pre_nil : pre_ok inp id f f' []
+| pre_forward src p b hdr :
+    inp = IClient src p -> f_backend_addr f = Some b -> f_backend_addr f' = Some b ->
+    hdr = [] \/ hdr = dgram_header (f_client f) b ->
+    pre_ok inp id f f' [(Some (f_inc f), Metric (MIn (N.of_nat (length p))));
+                        (Some (f_inc f), SendToBackend b (hdr ++ p))]
+| pre_resolve bid a p hdr :
+    inp = IResolved id bid a -> f_backend_addr f = None -> f_pending f = Some p ->
+    f_backend_addr f' = Some a -> hdr = [] \/ hdr = dgram_header (f_client f) a ->
+    pre_ok inp id f f' [(Some (f_inc f), OpenUpstream id a);
+                        (Some (f_inc f), Metric (MIn (N.of_nat (length p))));
+                        (Some (f_inc f), SendToBackend a (hdr ++ p))]
+| pre_resolve_empty bid a :
+    inp = IResolved id bid a -> f_backend_addr f = None -> f_backend_addr f' = Some a ->
+    pre_ok inp id f f' [(Some (f_inc f), OpenUpstream id a)]
+| pre_reply p :
+    inp = IBackend id p -> f_backend_addr f' = f_backend_addr f -> f_backend_addr f <> None ->
+    pre_ok inp id f f' [(Some (f_inc f), Metric (MOut (N.of_nat (length p))));
+                        (Some (f_inc f), SendToClient (f_client f) p)].
+
+(** a run of teardowns (handle_timeout, close_all) *)
+Inductive rems : mgr -> mgr -> list lout -> Prop :=
+| rems_nil m : rems m m []
+| rems_arms m m' a o : arms a -> rems m m' o -> rems m m' (a ++ o)
+| rems_cons m id f m' o :
+    sget (m_flows m) id = Some f -> rems (removed m id f) m' o ->
+    rems m m' (evict_close id f ++ o).
+
+Definition admit_flow (m : mgr) (src : addr) (p : list N) (now : N) : flow :=
+  mkflow src None None Awaiting (m_cluster m) 0 0 (now + c_front (m_cluster m)) 0
+         (c_send_pp (m_cluster m)) (Some p) (m_ninc m).
+
+Definition admitted (m : mgr) (src : addr) (p : list N) (now : N) : mgr :=
+  rearmed (mkmgr (tinsert (m_table m) (key_of src (c_with_port (m_cluster m))) (s_next (m_flows m)))
+                 (fst (sinsert (m_flows m) (admit_flow m src p now)))
+                 (m_max_flows m) (m_max_rx m) (m_cluster m) (m_draining m) (m_armed m) (m_hw m)
+                 (m_ninc m + 1)).
+
+Inductive shape (hash : bool -> addr -> N) (m : mgr) (now : N) (inp : input) : mgr -> list lout -> Prop :=
+| sh_same o : Forall (fun x : lout => fst x = None) o -> shape hash m now inp m o
+| sh_cfg m' :
+    m_flows m' = m_flows m -> m_table m' = m_table m -> m_armed m' = m_armed m ->
+    m_ninc m' = m_ninc m -> (m_max_flows m' <= m_hw m')%N -> (m_hw m <= m_hw m')%N ->
+    shape hash m now inp m' []
+| sh_update id f f' pre o :
+    sget (m_flows m) id = Some f -> same_id f f' -> phase_ok f' -> teardown_due f' = false ->
+    pre_ok inp id f f' pre -> arms o ->
+    (forall b, f_backend_addr f = Some b -> f_backend_addr f' = Some b) ->
+    shape hash m now inp (updated m id f') (pre ++ o)
+| sh_remove id f f' pre o :
+    sget (m_flows m) id = Some f -> same_id f f' -> pre_ok inp id f f' pre -> arms o ->
+    shape hash m now inp (removed m id f) (pre ++ evict_close id f ++ o)
+| sh_rems m' o : rems m m' o -> shape hash m now inp m' o
+| sh_admit src p o m' cl :
+    inp = IClient src p -> tget (m_table m) (key_of src (c_with_port (m_cluster m))) = None ->
+    m_draining m = false -> (N.of_nat (slen (m_flows m)) < m_max_flows m)%N -> arms o ->
+    m' = admitted m src p now -> cl = c_cluster (m_cluster m) -> cl <> [] -> p <> [] ->
+    shape hash m now inp m'
+          ([(Some (m_ninc m), Metric MCreated);
+            (Some (m_ninc m), SelectBackend (s_next (m_flows m)) cl
+                                            (hash (c_with_port (m_cluster m)) (key_of src (c_with_port (m_cluster m)))))]
+           ++ o).
+
+(** flow-level facts *)
+Lemma same_id_refl f : same_id f f.
+Proof. repeat split. Qed.
+Lemma same_id_trans f g h : same_id f g -> same_id g h -> same_id f h.
+Proof. unfold same_id. intros (a & b & c) (d & e & i). repeat split; congruence. Qed.
+
+Lemma take_pp_spec f b f' :
+  take_pp f = (b, f') ->
+  same_id f f' /\ f_phase f' = f_phase f /\ f_backend_addr f' = f_backend_addr f /\
+  f_pending f' = f_pending f /\ f_req f' = f_req f /\ f_resp f' = f_resp f /\
+  f_deadline f' = f_deadline f.
+Proof.
+  unfold take_pp. repeat case_if; intros H; inv H; cbn; repeat split.
+Qed.
+
+Lemma take_pp_teardown f b f' : take_pp f = (b, f') -> teardown_due f' = teardown_due f.
+Proof.
+  unfold take_pp. repeat case_if; intros H; inv H; reflexivity.
+Qed.
+
+Lemma rearmed_Inv m : Inv m -> rearmed m = m.
+Proof. intros HI. unfold rearmed. rewrite <- (inv_armed _ HI). destruct m; reflexivity. Qed.
+
+Lemma finish_spec m id f f' :
+  Inv m -> sget (m_flows m) id = Some f -> same_id f f' -> phase_ok f' ->
+  exists o, arms o /\
+    finish (set_flows m (sset (m_flows m) id f')) id (teardown_due f') =
+    if teardown_due f' then (removed m id f, evict_close id f ++ o) else (updated m id f', o).
+Proof.
+  intros HI Hg Hs Hp. unfold finish. destruct (teardown_due f') eqn:Ht.
+  - destruct (close_flow_after_sset m id f f' HI Hg Hs) as (o & Ho & Harm).
+    { unfold phase_ok in Hp. destruct (f_phase f'); try discriminate; tauto. }
+    exists o. split; [exact Harm | exact Ho].
+  - match goal with |- context [reschedule ?x] => destruct (reschedule_spec x) as (o & Ho & Harm) end.
+    exists o. split; [exact Harm | exact Ho].
+Qed.
+
+Lemma teardown_due_ext f f' :
+  f_cfg f' = f_cfg f -> f_req f' = f_req f -> f_resp f' = f_resp f -> teardown_due f' = teardown_due f.
+Proof.
+  intros H1 H2 H3. unfold teardown_due, responses_exhausted, requests_exhausted.
+  rewrite H1, H2, H3. reflexivity.
+Qed.
+
+Lemma rems_app m1 m2 m3 o1 o2 : rems m1 m2 o1 -> rems m2 m3 o2 -> rems m1 m3 (o1 ++ o2).
+Proof.
+  induction 1 as [m|m m' a o Ha H IH|m id f m' o Hg H IH]; intros H2; cbn [app].
+  - exact H2.
+  - rewrite <- app_assoc. apply rems_arms; auto.
+  - unfold evict_close. cbn [app]. apply (rems_cons m id f); auto.
+Qed.
+
+Lemma rems_inv m m' o : rems m m' o -> Inv m -> Inv m'.
+Proof.
+  induction 1 as [m|m m' a o Ha H IH|m id f m' o Hg H IH]; intros HI; auto.
+  apply IH. apply Inv_removed; assumption.
+Qed.
+
+Lemma close_flow_rems m id : Inv m -> rems m (fst (close_flow m id)) (snd (close_flow m id)).
+Proof.
+  intros HI. destruct (sget (m_flows m) id) as [f|] eqn:Hg.
+  - destruct (close_flow_live _ _ _ HI Hg) as (o & -> & Harm). cbn [fst snd].
+    apply (rems_cons m id f); auto. rewrite <- (app_nil_r o). apply rems_arms; [exact Harm|constructor].
+  - rewrite close_flow_dead by assumption. constructor.
+Qed.
+
+Ltac drop_same := apply sh_same; repeat constructor.
+
+Section HandlerShapes.
+Variable hash : bool -> addr -> N.
+
+Lemma on_backend_datagram_shape m id p now :
+  Inv m ->
+  shape hash m now (IBackend id p) (fst (on_backend_datagram m id p now)) (snd (on_backend_datagram m id p now)).
+Proof.
+  intros HI. unfold on_backend_datagram.
+  case_if; [drop_same|].
+  destruct (sget (m_flows m) id) as [f|] eqn:Hg; [|drop_same].
+  destruct (phase_eqb (f_phase f) Established) eqn:Ep; cbn [negb]; [|drop_same].
+  apply phase_eqb_eq in Ep.
+  pose proof (inv_phase _ HI _ _ Hg) as Hp. unfold phase_ok in Hp. rewrite Ep in Hp. destruct Hp as (Hb & Hpend).
+  set (f1 := flow_on_backend f now).
+  assert (same_id f f1) as Hs by (repeat split).
+  assert (phase_ok f1) as Hp1 by (unfold phase_ok; cbn; rewrite Ep; auto).
+  destruct (finish_spec m id f f1 HI Hg Hs Hp1) as (o & Harm & Hf). rewrite Hf.
+  destruct (teardown_due f1) eqn:Ht; cbn [fst snd].
+  - apply (sh_remove hash m now _ id f f1
+             [(Some (f_inc f), Metric (MOut (N.of_nat (length p)))); (Some (f_inc f), SendToClient (f_client f) p)] o);
+      auto. apply pre_reply; auto.
+  - apply (sh_update hash m now _ id f f1
+             [(Some (f_inc f), Metric (MOut (N.of_nat (length p)))); (Some (f_inc f), SendToClient (f_client f) p)] o);
+      auto. apply pre_reply; auto.
+Qed.
+
+Lemma forward_shape m id src p now :
+  Inv m ->
+  shape hash m now (IClient src p) (fst (forward_on_existing_flow m id p now))
+        (snd (forward_on_existing_flow m id p now)).
+Proof.
+  intros HI. unfold forward_on_existing_flow.
+  destruct (sget (m_flows m) id) as [f|] eqn:Hg; [|drop_same].
+  pose proof (inv_phase _ HI _ _ Hg) as Hp. unfold phase_ok in Hp.
+  destruct (f_phase f) eqn:Ep; [| |drop_same].
+  - (* Awaiting: buffer, newest wins *)
+    destruct Hp as (Hb & Hpend).
+    match goal with |- context [reschedule (set_flows m (sset _ id ?g))] => set (f1 := g) end.
+    destruct (reschedule_spec (set_flows m (sset (m_flows m) id f1))) as (o & Ho & Harm).
+    rewrite Ho. cbn [fst snd]. change o with ([] ++ o).
+    apply (sh_update hash m now _ id f f1 [] o); auto.
+    + repeat split.
+    + unfold phase_ok. cbn. rewrite ?Ep. split; [exact Hb | discriminate].
+    + rewrite <- (inv_caps _ HI _ _ Hg). apply teardown_due_ext; reflexivity.
+    + constructor.
+  - (* Established: forward *)
+    destruct Hp as (Hb & Hpend).
+    destruct (f_backend_addr f) as [b|] eqn:Eb; [|congruence].
+    cbn [flow_on_client touch f_backend_addr]. rewrite Eb.
+    destruct (take_pp (flow_on_client f now)) as [pp f2] eqn:Etp.
+    destruct (take_pp_spec _ _ _ Etp) as (Hs2 & Hph2 & Hb2 & Hpe2 & _).
+    assert (same_id f f2) as Hs.
+    { eapply same_id_trans; [|exact Hs2]. repeat split. }
+    assert (phase_ok f2) as Hp2.
+    { unfold phase_ok. rewrite Hph2, Hb2, Hpe2. cbn. rewrite Ep, Eb. split; [discriminate|exact Hpend]. }
+    destruct (finish_spec m id f f2 HI Hg Hs Hp2) as (o & Harm & Hf). rewrite Hf.
+    assert (f_client f2 = f_client f) as Hc by apply Hs.
+    assert (f_backend_addr f2 = Some b) as Hb2' by (rewrite Hb2; cbn; exact Eb).
+    set (hdr := if pp then dgram_header (f_client f) b else []).
+    assert ((if pp then dgram_header (f_client f2) b ++ p else p) = hdr ++ p) as ->.
+    { unfold hdr. rewrite Hc. destruct pp; reflexivity. }
+    assert (hdr = [] \/ hdr = dgram_header (f_client f) b) as Hh by (unfold hdr; destruct pp; auto).
+    destruct (teardown_due f2) eqn:Ht; cbn [fst snd].
+    + apply (sh_remove hash m now _ id f f2 _ o); auto. eapply pre_forward; eauto.
+    + apply (sh_update hash m now _ id f f2 _ o); auto; [eapply pre_forward; eauto|].
+      intros b0 Hb0. congruence.
+Qed.
+
+Lemma on_client_datagram_shape m src p now :
+  Inv m ->
+  shape hash m now (IClient src p) (fst (on_client_datagram hash m src p now))
+        (snd (on_client_datagram hash m src p now)).
+Proof.
+  intros HI. unfold on_client_datagram.
+  case_if; [drop_same|].
+  destruct (c_cluster (m_cluster m)) as [|c0 cl] eqn:Ecl; [drop_same|].
+  destruct p as [|p0 p']; [drop_same|].
+  destruct (tget (m_table m) (key_of src (c_with_port (m_cluster m)))) as [id|] eqn:Et.
+  - apply forward_shape. exact HI.
+  - destruct (m_draining m) eqn:Ed; [drop_same|].
+    destruct (N.leb (m_max_flows m) (N.of_nat (slen (m_flows m)))) eqn:Ecap; [drop_same|].
+    apply N.leb_gt in Ecap.
+    change (set_flow_live (flow_new src (m_cluster m) now (m_ninc m)) _ _ _ (Some (p0 :: p')))
+      with (admit_flow m src (p0 :: p') now).
+    cbn [f_cfg f_client admit_flow].
+    destruct (sinsert (m_flows m) (admit_flow m src (p0 :: p') now)) as [s' id] eqn:Eins.
+    assert (id = s_next (m_flows m)) as -> by (rewrite <- (sinsert_key (m_flows m) (admit_flow m src (p0 :: p') now)), Eins; reflexivity).
+    assert (s' = fst (sinsert (m_flows m) (admit_flow m src (p0 :: p') now))) as -> by (rewrite Eins; reflexivity).
+    match goal with |- context [reschedule ?x] => destruct (reschedule_spec x) as (o & Ho & Harm) end.
+    rewrite Ho. cbn [fst snd].
+    apply (sh_admit hash m now _ src (p0 :: p') o); auto; try discriminate.
+    unfold admitted. rewrite Ed. reflexivity.
+Qed.
+
+Lemma on_backend_resolved_shape m id bid a now :
+  Inv m ->
+  shape hash m now (IResolved id bid a) (fst (on_backend_resolved m id bid a now))
+        (snd (on_backend_resolved m id bid a now)).
+Proof.
+  intros HI. unfold on_backend_resolved.
+  destruct (sget (m_flows m) id) as [f|] eqn:Hg; [|drop_same].
+  destruct (phase_eqb (f_phase f) Awaiting) eqn:Ep; cbn [negb]; [|drop_same].
+  apply phase_eqb_eq in Ep.
+  pose proof (inv_phase _ HI _ _ Hg) as Hp. unfold phase_ok in Hp. rewrite Ep in Hp. destruct Hp as (Hb & Hpend).
+  cbn [set_flow_live f_pending].
+  destruct (f_pending f) as [payload|] eqn:Epe; [|congruence].
+  match goal with |- context [take_pp ?x] => set (f3 := x) end.
+  destruct (take_pp f3) as [pp f4] eqn:Etp.
+  destruct (take_pp_spec _ _ _ Etp) as (Hs4 & Hph4 & Hb4 & Hpe4 & _).
+  assert (same_id f f4) as Hs.
+  { eapply same_id_trans; [|exact Hs4]. repeat split. }
+  assert (phase_ok f4) as Hp4.
+  { unfold phase_ok. rewrite Hph4, Hb4, Hpe4. cbn. split; [discriminate|reflexivity]. }
+  destruct (finish_spec m id f f4 HI Hg Hs Hp4) as (o & Harm & Hf). rewrite Hf.
+  assert (f_client f4 = f_client f) as Hc by apply Hs.
+  assert (f_backend_addr f4 = Some a) as Hb4' by (rewrite Hb4; reflexivity).
+  set (hdr := if pp then dgram_header (f_client f) a else []).
+  assert ((if pp then dgram_header (f_client f4) a ++ payload else payload) = hdr ++ payload) as ->.
+  { unfold hdr. rewrite Hc. destruct pp; reflexivity. }
+  assert (hdr = [] \/ hdr = dgram_header (f_client f) a) as Hh by (unfold hdr; destruct pp; auto).
+  destruct (teardown_due f4) eqn:Ht; cbn [fst snd].
+  - apply (sh_remove hash m now _ id f f4
+             [(Some (f_inc f), OpenUpstream id a); (Some (f_inc f), Metric (MIn (N.of_nat (length payload))));
+              (Some (f_inc f), SendToBackend a (hdr ++ payload))] o); auto.
+    eapply pre_resolve; eauto.
+  - apply (sh_update hash m now _ id f f4
+             [(Some (f_inc f), OpenUpstream id a); (Some (f_inc f), Metric (MIn (N.of_nat (length payload))));
+              (Some (f_inc f), SendToBackend a (hdr ++ payload))] o); auto.
+    + eapply pre_resolve; eauto.
+    + intros b0 Hb0. congruence.
+Qed.
+
+Lemma timeout_fold m now due : forall outs,
+  Inv m ->
+  exists m' o, fold_left (timeout_one now) due (m, outs) = (m', outs ++ o) /\ rems m m' o.
+Proof.
+  revert m. induction due as [|id due IH]; intros m outs HI; cbn [fold_left].
+  - exists m, []. rewrite app_nil_r. split; [reflexivity|constructor].
+  - assert (exists m1 o1, timeout_one now (m, outs) id = (m1, outs ++ o1) /\ rems m m1 o1) as (m1 & o1 & E1 & R1).
+    { unfold timeout_one. destruct (sget (m_flows m) id) as [f|] eqn:Hg.
+      - destruct (N.leb (f_deadline f) now && negb (phase_eqb (f_phase f) Closing)).
+        + pose proof (close_flow_rems m id HI) as R. destruct (close_flow m id) as [m1 o1].
+          exists m1, o1. split; [reflexivity|exact R].
+        + exists m, []. rewrite app_nil_r. split; [reflexivity|constructor].
+      - exists m, []. rewrite app_nil_r. split; [reflexivity|constructor]. }
+    rewrite E1. destruct (IH m1 (outs ++ o1) (rems_inv _ _ _ R1 HI)) as (m2 & o2 & E2 & R2).
+    exists m2, (o1 ++ o2). rewrite E2, app_assoc. split; [reflexivity|].
+    eapply rems_app; eauto.
+Qed.
+
+Lemma handle_timeout_shape m now :
+  Inv m -> rems m (fst (handle_timeout m now)) (snd (handle_timeout m now)).
+Proof.
+  intros HI. unfold handle_timeout.
+  match goal with |- context [fold_left (timeout_one now) ?d _] =>
+    destruct (timeout_fold m now d [] HI) as (m1 & o1 & E1 & R1) end.
+  rewrite E1. cbn [app].
+  destruct (reschedule_spec m1) as (o2 & E2 & Harm). rewrite E2. cbn [fst snd].
+  rewrite (rearmed_Inv m1 (rems_inv _ _ _ R1 HI)).
+  eapply rems_app; [exact R1|]. rewrite <- (app_nil_r o2). apply rems_arms; [exact Harm|constructor].
+Qed.
+
+Lemma close_all_fold m ids : forall outs,
+  Inv m ->
+  exists m' o, fold_left close_one ids (m, outs) = (m', outs ++ o) /\ rems m m' o.
+Proof.
+  revert m. induction ids as [|id ids IH]; intros m outs HI; cbn [fold_left].
+  - exists m, []. rewrite app_nil_r. split; [reflexivity|constructor].
+  - unfold close_one at 2. pose proof (close_flow_rems m id HI) as R1.
+    destruct (close_flow m id) as [m1 o1]. cbn [fst snd] in R1.
+    destruct (IH m1 (outs ++ o1) (rems_inv _ _ _ R1 HI)) as (m2 & o2 & E2 & R2).
+    exists m2, (o1 ++ o2). rewrite E2, app_assoc. split; [reflexivity|].
+    eapply rems_app; eauto.
+Qed.
+
+Lemma close_all_shape m : Inv m -> rems m (fst (close_all m)) (snd (close_all m)).
+Proof.
+  intros HI. unfold close_all.
+  match goal with |- context [fold_left close_one ?d _] =>
+    destruct (close_all_fold m d [] HI) as (m1 & o1 & E1 & R1) end.
+  rewrite E1. exact R1.
+Qed.
+
+Theorem step_shape m now inp :
+  Inv m -> shape hash m now inp (fst (step hash m now inp)) (snd (step hash m now inp)).
+Proof.
+  intros HI. destruct inp as [src p|id p|id bid a|c|n|n| | |id| ]; cbn [step].
+  - apply on_client_datagram_shape; exact HI.
+  - apply on_backend_datagram_shape; exact HI.
+  - apply on_backend_resolved_shape; exact HI.
+  - cbn [fst snd]. apply sh_cfg; cbn; try reflexivity; try lia. apply HI.
+  - cbn [fst snd]. apply sh_cfg; cbn; try reflexivity; lia.
+  - cbn [fst snd]. apply sh_cfg; cbn; try reflexivity; try lia. apply HI.
+  - cbn [fst snd]. apply sh_cfg; cbn; try reflexivity; try lia. apply HI.
+  - apply sh_rems. apply handle_timeout_shape; exact HI.
+  - apply sh_rems. apply close_flow_rems; exact HI.
+  - apply sh_rems. apply close_all_shape; exact HI.
+Qed.
+
+End HandlerShapes.
+
+(* ------------------------------------------------------------------ *)
+(** Part 3: the invariant is inductive. *)
+
+Lemma exhausted_zero c x : (negb (N.eqb c 0) && N.leb c x)%bool = true -> (c <> 0 /\ c <= x)%N.
+Proof.
+  rewrite andb_true_iff, negb_true_iff, N.eqb_neq, N.leb_le. tauto.
+Qed.
+
+Lemma admit_flow_fresh_caps m src p now : teardown_due (admit_flow m src p now) = false.
+Proof.
+  unfold teardown_due, responses_exhausted, requests_exhausted. cbn.
+  destruct (N.eqb_spec (c_responses (m_cluster m)) 0) as [->|H1];
+  destruct (N.eqb_spec (c_requests (m_cluster m)) 0) as [->|H2]; cbn; auto.
+  - destruct (N.leb_spec (c_requests (m_cluster m)) 0); auto. lia.
+  - destruct (N.leb_spec (c_responses (m_cluster m)) 0); auto. lia.
+  - destruct (N.leb_spec (c_responses (m_cluster m)) 0); [lia|].
+    destruct (N.leb_spec (c_requests (m_cluster m)) 0); auto. lia.
+Qed.
+
+Lemma Inv_admitted m src p now :
+  Inv m -> tget (m_table m) (key_of src (c_with_port (m_cluster m))) = None ->
+  (N.of_nat (slen (m_flows m)) < m_max_flows m)%N ->
+  Inv (admitted m src p now).
+Proof.
+  intros HI Ht Hcap. unfold admitted.
+  set (f := admit_flow m src p now). set (key := key_of src (c_with_port (m_cluster m))).
+  pose proof (inv_wf _ HI) as Hwf.
+  pose proof (sinsert_fresh Hwf) as Hfresh.
+  assert (own_key f = key) as Hk by reflexivity.
+  apply Inv_rearmed; cbn [m_flows m_table m_hw m_max_flows m_ninc].
+  - apply sinsert_wf. exact Hwf.
+  - intros k j. rewrite tget_tinsert. rewrite (sget_sinsert _ _ Hwf).
+    destruct (addr_eqb key k) eqn:E.
+    + apply addr_eqb_eq in E. intros H. inv H. rewrite Nat.eqb_refl. exists f. auto.
+    + intros Hj. destruct (inv_tab_slab _ HI _ _ Hj) as (g & Hg1 & Hg2).
+      destruct (Nat.eqb j (s_next (m_flows m))) eqn:Ej.
+      * apply Nat.eqb_eq in Ej. subst j. congruence.
+      * exists g. auto.
+  - intros j g. rewrite (sget_sinsert _ _ Hwf). rewrite tget_tinsert.
+    destruct (Nat.eqb j (s_next (m_flows m))) eqn:Ej.
+    + apply Nat.eqb_eq in Ej. subst j. intros H. inv H. rewrite Hk, addr_eqb_refl. reflexivity.
+    + intros Hj. pose proof (inv_slab_tab _ HI _ _ Hj) as H1.
+      destruct (addr_eqb key (own_key g)) eqn:E; [|exact H1].
+      apply addr_eqb_eq in E. rewrite <- E in H1. unfold key in H1. congruence.
+  - intros j g. rewrite (sget_sinsert _ _ Hwf).
+    destruct (Nat.eqb j (s_next (m_flows m))); [|apply (inv_phase _ HI)].
+    intros H. inv H. unfold phase_ok. cbn. split; [reflexivity|discriminate].
+  - intros j g. rewrite (sget_sinsert _ _ Hwf).
+    destruct (Nat.eqb j (s_next (m_flows m))); [|apply (inv_caps _ HI)].
+    intros H. inv H. apply admit_flow_fresh_caps.
+  - rewrite (slen_sinsert f Hwf). destruct (inv_hw _ HI). split; lia.
+  - intros j g. rewrite (sget_sinsert _ _ Hwf).
+    destruct (Nat.eqb j (s_next (m_flows m))).
+    + intros H. inv H. cbn. lia.
+    + intros H. pose proof (inv_inc _ HI _ _ H). lia.
+  - intros j1 j2 g1 g2. rewrite !(sget_sinsert _ _ Hwf).
+    destruct (Nat.eqb j1 (s_next (m_flows m))) eqn:E1; destruct (Nat.eqb j2 (s_next (m_flows m))) eqn:E2;
+      rewrite ?Nat.eqb_eq in *; subst; intros H1 H2 He.
+    + reflexivity.
+    + inv H1. pose proof (inv_inc _ HI _ _ H2). cbn in He. lia.
+    + inv H2. pose proof (inv_inc _ HI _ _ H1). cbn in He. lia.
+    + apply (inv_inc_inj _ HI _ _ _ _ H1 H2 He).
+Qed.
+
+Lemma shape_inv hash m now inp m' o : Inv m -> shape hash m now inp m' o -> Inv m'.
+Proof.
+  intros HI H. destruct H as [o Ho|m' E1 E2 E3 E4 H5 H6|id f f' pre o Hg Hs Hp Ht Hpre Ho Hmono
+                              |id f f' pre o Hg Hs Hpre Ho|m' o Hr|src p o m' cl Ei Ht Hd Hc Ho Em Ecl Hne Hpne].
+  - exact HI.
+  - destruct HI. constructor; rewrite ?E1, ?E2, ?E3, ?E4; auto.
+    destruct inv_hw0. split; [lia|assumption].
+  - eapply Inv_updated; eauto.
+  - apply Inv_removed; assumption.
+  - eapply rems_inv; eauto.
+  - subst m'. apply Inv_admitted; assumption.
+Qed.
+
+Lemma Inv_new c mf mrx : Inv (mgr_new c mf mrx).
+Proof.
+  constructor; cbn; try discriminate; try (intros; discriminate).
+  - apply sempty_wf.
+  - intros id f H. unfold sget in H. cbn in H. destruct id; discriminate.
+  - intros id f H. unfold sget in H. cbn in H. destruct id; discriminate.
+  - intros id f H. unfold sget in H. cbn in H. destruct id; discriminate.
+  - reflexivity.
+  - split; lia.
+  - intros id f H. unfold sget in H. cbn in H. destruct id; discriminate.
+  - intros id1 id2 f1 f2 H. unfold sget in H. cbn in H. destruct id1; discriminate.
+Qed.
+
+Lemma step_inv hash m now inp : Inv m -> Inv (fst (step hash m now inp)).
+Proof. intros HI. eapply shape_inv; [exact HI | apply step_shape; exact HI]. Qed.
+
+Lemma run_inv hash h : forall m, Inv m -> Inv (fst (run hash m h)).
+Proof.
+  induction h as [|[now i] h IH]; intros m HI; cbn [run]; [exact HI|].
+  pose proof (step_inv hash m now i HI) as H1.
+  destruct (step hash m now i) as [m1 o]. cbn [fst] in H1.
+  specialize (IH m1 H1). destruct (run hash m1 h) as [m2 tr]. exact IH.
+Qed.
+
+(** consequences spelled out *)
+Lemma table_injective m k1 k2 id : Inv m -> tget (m_table m) k1 = Some id -> tget (m_table m) k2 = Some id -> k1 = k2.
+Proof.
+  intros HI H1 H2. destruct (inv_tab_slab _ HI _ _ H1) as (f1 & G1 & K1).
+  destruct (inv_tab_slab _ HI _ _ H2) as (f2 & G2 & K2). congruence.
+Qed.
+
+Lemma armed_coherent m : Inv m ->
+  match m_armed m with
+  | None => forall id, sget (m_flows m) id = None
+  | Some d => (exists id f, sget (m_flows m) id = Some f /\ f_deadline f = d) /\
+              (forall id f, sget (m_flows m) id = Some f -> (d <= f_deadline f)%N)
+  end.
+Proof.
+  intros HI. rewrite (inv_armed _ HI). destruct (min_deadline (m_flows m)) as [d|] eqn:E.
+  - destruct (min_deadline_some _ _ E) as ((id & f & Hg & _ & Hd) & Hle). split; [eauto|].
+    intros j g Hj. apply (Hle j g Hj). pose proof (inv_phase _ HI _ _ Hj) as Hp.
+    unfold phase_ok in Hp. destruct (f_phase g); try discriminate; tauto.
+  - intros id. destruct (sget (m_flows m) id) as [f|] eqn:Hg; auto.
+    pose proof (min_deadline_none _ E _ _ Hg) as Hc. pose proof (inv_phase _ HI _ _ Hg) as Hp.
+    unfold phase_ok in Hp. rewrite Hc in Hp. destruct Hp.
+Qed.
+
+(* ------------------------------------------------------------------ *)
+(** Part 4: step-level properties (bounded, teardown, stale resolutions). *)
+
+Lemma arms_in o x : arms o -> In x o -> exists d, x = (None, ArmTimer d).
+Proof. intros H Hin. unfold arms in H. rewrite Forall_forall in H. auto. Qed.
+
+Lemma pre_ok_in inp id f f' pre x :
+  pre_ok inp id f f' pre -> In x pre ->
+  fst x = Some (f_inc f) /\
+  match snd x with
+  | Metric (MIn _) | Metric (MOut _) | SendToBackend _ _ | SendToClient _ _ | OpenUpstream _ _ => True
+  | _ => False
+  end.
+Proof.
+  intros H Hin. destruct H; cbn in Hin;
+    repeat (destruct Hin as [<-|Hin]; [cbn; auto|]); destruct Hin.
+Qed.
+
+Lemma rems_mono m m' o : rems m m' o ->
+  forall j g, sget (m_flows m') j = Some g -> sget (m_flows m) j = Some g.
+Proof.
+  induction 1 as [m|m m' a o Ha H IH|m id f m' o Hg H IH]; intros j g Hj; auto.
+  specialize (IH _ _ Hj). cbn in IH. rewrite sget_sremove in IH.
+  destruct (Nat.eqb j id); [discriminate|exact IH].
+Qed.
+
+Lemma rems_in m m' o x : rems m m' o -> In x o ->
+  (exists d, x = (None, ArmTimer d)) \/
+  (exists id f, sget (m_flows m) id = Some f /\
+                (x = (Some (f_inc f), Metric MEvicted) \/ x = (Some (f_inc f), CloseFlow id))).
+Proof.
+  induction 1 as [m|m m' a o Ha H IH|m id f m' o Hg H IH]; intros Hin.
+  - destruct Hin.
+  - apply in_app_or in Hin. destruct Hin as [Hin|Hin]; [left; eapply arms_in; eauto | auto].
+  - cbn in Hin. destruct Hin as [<-|[<-|Hin]].
+    + right. exists id, f. auto.
+    + right. exists id, f. auto.
+    + destruct (IH Hin) as [?|(id' & f' & Hg' & Hx)]; [left; assumption|].
+      right. exists id', f'. split; [|exact Hx].
+      cbn in Hg'. rewrite sget_sremove in Hg'. destruct (Nat.eqb id' id); [discriminate|exact Hg'].
+Qed.
+
+Section StepProps.
+Variable hash : bool -> addr -> N.
+
+(** bounded (1): a flow is created only by a client datagram, under the live cap, not draining *)
+Lemma created_only_under_cap m now inp i :
+  Inv m -> In (Some i, Metric MCreated) (snd (step hash m now inp)) ->
+  m_draining m = false /\ (N.of_nat (slen (m_flows m)) < m_max_flows m)%N /\
+  (exists src p, inp = IClient src p /\ p <> [] /\
+                 tget (m_table m) (key_of src (c_with_port (m_cluster m))) = None) /\
+  i = m_ninc m.
+Proof.
+  intros HI Hin. pose proof (step_shape hash m now inp HI) as Hs.
+  destruct Hs as [o Ho|m' E1 E2 E3 E4 H5 H6|id f f' pre o Hg Hs Hp Ht Hpre Ho Hmono
+                 |id f f' pre o Hg Hs Hpre Ho|m' o Hr|src p o m' cl Ei Ht Hd Hc Ho Em Ecl Hne Hpne].
+  - rewrite Forall_forall in Ho. specialize (Ho _ Hin). discriminate.
+  - destruct Hin.
+  - apply in_app_or in Hin. destruct Hin as [Hin|Hin].
+    + destruct (pre_ok_in _ _ _ _ _ _ Hpre Hin) as (_ & H). destruct H.
+    + destruct (arms_in _ _ Ho Hin). discriminate.
+  - apply in_app_or in Hin. destruct Hin as [Hin|Hin].
+    + destruct (pre_ok_in _ _ _ _ _ _ Hpre Hin) as (_ & H). destruct H.
+    + apply in_app_or in Hin. destruct Hin as [Hin|Hin].
+      * cbn in Hin. destruct Hin as [H|[H|[]]]; discriminate.
+      * destruct (arms_in _ _ Ho Hin). discriminate.
+  - destruct (rems_in _ _ _ _ Hr Hin) as [(d & H)|(id & f & _ & [H|H])]; discriminate.
+  - cbn in Hin. destruct Hin as [H|[H|Hin]].
+    + inv H. repeat split; auto. exists src, p. auto.
+    + discriminate.
+    + destruct (arms_in _ _ Ho Hin). discriminate.
+Qed.
+
+(** bounded (3): an established flow keeps forwarding whatever the cap and the drain flag *)
+Lemma established_keeps_forwarding m now src p id f b :
+  Inv m ->
+  (N.of_nat (length p) <= m_max_rx m)%N -> c_cluster (m_cluster m) <> [] -> p <> [] ->
+  tget (m_table m) (key_of src (c_with_port (m_cluster m))) = Some id ->
+  sget (m_flows m) id = Some f -> f_backend_addr f = Some b ->
+  exists hdr, (hdr = [] \/ hdr = dgram_header (f_client f) b) /\
+    In (Some (f_inc f), SendToBackend b (hdr ++ p)) (snd (step hash m now (IClient src p))).
+Proof.
+  intros HI Hlen Hcl Hp Ht Hg Hb. cbn [step]. unfold on_client_datagram.
+  assert (N.ltb (m_max_rx m) (N.of_nat (length p)) = false) as -> by (apply N.ltb_ge; exact Hlen).
+  destruct (c_cluster (m_cluster m)) as [|c0 cl]; [congruence|].
+  destruct p as [|p0 p']; [congruence|]. rewrite Ht.
+  unfold forward_on_existing_flow. rewrite Hg.
+  pose proof (inv_phase _ HI _ _ Hg) as Hph. unfold phase_ok in Hph.
+  destruct (f_phase f) eqn:Ep; [destruct Hph; congruence| |destruct Hph].
+  cbn [flow_on_client touch f_backend_addr]. rewrite Hb.
+  destruct (take_pp _) as [pp f2] eqn:Etp.
+  destruct (take_pp_spec _ _ _ Etp) as (Hs2 & _).
+  assert (f_client f2 = f_client f) as Hc by (destruct Hs2 as (H & _); rewrite H; reflexivity).
+  destruct (finish _ _ _) as [m2 o].
+  exists (if pp then dgram_header (f_client f) b else []). split; [destruct pp; auto|].
+  cbn [snd]. right. left. rewrite Hc. destruct pp; reflexivity.
+Qed.
+
+(** teardown: after handle_timeout(now) no flow is due and the armed deadline is past now *)
+Lemma timeout_fold_gone now due : forall m outs m' outs',
+  Inv m -> fold_left (timeout_one now) due (m, outs) = (m', outs') ->
+  forall id g, In id due -> sget (m_flows m') id = Some g -> (now < f_deadline g)%N.
+Proof.
+  induction due as [|id0 due IH]; intros m outs m' outs' HI Hf id g Hin Hg; [destruct Hin|].
+  cbn [fold_left] in Hf.
+  destruct (timeout_one now (m, outs) id0) as [m1 o1] eqn:E1.
+  assert (Inv m1 /\ (forall g1, sget (m_flows m1) id0 = Some g1 -> (now < f_deadline g1)%N)) as (HI1 & H1).
+  { unfold timeout_one in E1. destruct (sget (m_flows m) id0) as [f|] eqn:Hg0.
+    - destruct (N.leb (f_deadline f) now) eqn:Ed; cbn [andb] in E1.
+      + rewrite (phase_ok_not_closing _ (inv_phase _ HI _ _ Hg0)) in E1. cbn [negb] in E1.
+        destruct (close_flow_live _ _ _ HI Hg0) as (o & Hc & _). rewrite Hc in E1. inv E1.
+        split; [apply Inv_removed; assumption|].
+        intros g1. cbn. rewrite sget_sremove, Nat.eqb_refl. discriminate.
+      + inv E1. split; [exact HI|]. intros g1 Hg1. rewrite Hg0 in Hg1. inv Hg1.
+        apply N.leb_gt in Ed. exact Ed.
+    - inv E1. split; [exact HI|]. intros g1 Hg1. congruence. }
+  destruct Hin as [<-|Hin].
+  - apply H1.
+    destruct (timeout_fold m1 now due o1 HI1) as (m2 & o2 & E2 & R2).
+    rewrite Hf in E2. inv E2. eapply rems_mono; eauto.
+  - eapply IH; eauto.
+Qed.
+
+Lemma timeout_advances m now :
+  Inv m ->
+  let m' := fst (step hash m now ITimeout) in
+  (forall id g, sget (m_flows m') id = Some g -> (now < f_deadline g)%N) /\
+  (forall d, m_armed m' = Some d -> (now < d)%N).
+Proof.
+  intros HI m'. assert (Inv m') as HI' by (apply step_inv; exact HI).
+  assert (forall id g, sget (m_flows m') id = Some g -> (now < f_deadline g)%N) as H.
+  { intros id g Hg. subst m'. cbn [step] in Hg.
+    pose proof (handle_timeout_shape m now HI) as R.
+    pose proof (rems_mono _ _ _ R _ _ Hg) as Hg0.
+    destruct (N.leb (f_deadline g) now) eqn:Ed; [|apply N.leb_gt in Ed; exact Ed].
+    unfold handle_timeout in Hg.
+    set (due := map fst (filter (fun kf => N.leb (f_deadline (snd kf)) now) (sitems (m_flows m)))) in *.
+    destruct (fold_left (timeout_one now) due (m, [])) as [m1 o1] eqn:Ef.
+    destruct (reschedule_spec m1) as (o2 & E2 & _). rewrite E2 in Hg. cbn [fst] in Hg.
+    change (m_flows (rearmed m1)) with (m_flows m1) in Hg.
+    eapply (timeout_fold_gone now due m [] m1 o1 HI Ef id g); [|exact Hg].
+    unfold due. apply in_map_iff. exists (id, g). split; [reflexivity|].
+    apply filter_In. split; [apply sitems_spec; exact Hg0 | exact Ed]. }
+  split; [exact H|].
+  intros d Hd. pose proof (armed_coherent _ HI') as Hc. rewrite Hd in Hc.
+  destruct Hc as ((id & f & Hg & <-) & _). eapply H; eauto.
+Qed.
+
+(** teardown: close_all leaves no flow, no table entry and no armed timer *)
+Lemma close_all_fold_gone ids : forall m outs m' outs',
+  Inv m -> fold_left close_one ids (m, outs) = (m', outs') ->
+  forall id, In id ids -> sget (m_flows m') id = None.
+Proof.
+  induction ids as [|id0 ids IH]; intros m outs m' outs' HI Hf id Hin; [destruct Hin|].
+  cbn [fold_left] in Hf. unfold close_one at 2 in Hf.
+  pose proof (close_flow_rems m id0 HI) as R1. pose proof (close_flow_inv m id0 HI) as HI1.
+  assert (sget (m_flows (fst (close_flow m id0))) id0 = None) as H0.
+  { destruct (sget (m_flows m) id0) as [f|] eqn:Hg0.
+    - destruct (close_flow_live _ _ _ HI Hg0) as (o & Hc & _). rewrite Hc. cbn.
+      rewrite sget_sremove, Nat.eqb_refl. reflexivity.
+    - rewrite close_flow_dead by assumption. exact Hg0. }
+  destruct (close_flow m id0) as [m1 o1]. cbn [fst snd] in *.
+  destruct Hin as [<-|Hin].
+  - destruct (close_all_fold m1 ids (outs ++ o1) HI1) as (m2 & o2 & E2 & R2).
+    rewrite Hf in E2. inv E2.
+    destruct (sget (m_flows m2) id0) as [g|] eqn:Hg; auto.
+    pose proof (rems_mono _ _ _ R2 _ _ Hg). congruence.
+  - eapply IH; eauto.
+Qed.
+
+Lemma close_all_leaves_nothing m now :
+  Inv m ->
+  let m' := fst (step hash m now ICloseAll) in
+  (forall id, sget (m_flows m') id = None) /\ slen (m_flows m') = 0 /\
+  (forall k, tget (m_table m') k = None) /\ m_armed m' = None.
+Proof.
+  intros HI m'. assert (Inv m') as HI' by (apply step_inv; exact HI).
+  assert (forall id, sget (m_flows m') id = None) as H.
+  { intros id. destruct (sget (m_flows m') id) as [g|] eqn:Hg; auto. exfalso.
+    subst m'. cbn [step] in Hg.
+    pose proof (rems_mono _ _ _ (close_all_shape m HI) _ _ Hg) as Hg0.
+    unfold close_all in Hg.
+    destruct (fold_left close_one (map fst (sitems (m_flows m))) (m, [])) as [m1 o1] eqn:Ef.
+    cbn [fst] in Hg.
+    rewrite (close_all_fold_gone _ m [] m1 o1 HI Ef id) in Hg; [discriminate|].
+    apply in_map_iff. exists (id, g). split; [reflexivity | apply sitems_spec; exact Hg0]. }
+  split; [exact H|]. split; [|split].
+  - unfold slen. rewrite (slen_zero _ H). reflexivity.
+  - intros k. destruct (tget (m_table m') k) as [id|] eqn:E; auto.
+    destruct (inv_tab_slab _ HI' _ _ E) as (f & Hg & _). rewrite H in Hg. discriminate.
+  - rewrite (inv_armed _ HI'). unfold min_deadline. rewrite (slen_zero _ H). reflexivity.
+Qed.
+
+(** sticky: a resolution for a flow that is not awaiting one changes nothing *)
+Lemma stale_resolution_noop m now id bid a :
+  (forall f, sget (m_flows m) id = Some f -> f_phase f <> Awaiting) ->
+  fst (step hash m now (IResolved id bid a)) = m /\
+  forall x, In x (snd (step hash m now (IResolved id bid a))) -> fst x = None.
+Proof.
+  intros H. cbn [step]. unfold on_backend_resolved.
+  destruct (sget (m_flows m) id) as [f|] eqn:Hg.
+  - specialize (H f eq_refl).
+    assert (phase_eqb (f_phase f) Awaiting = false) as ->.
+    { destruct (phase_eqb (f_phase f) Awaiting) eqn:E; auto. apply phase_eqb_eq in E. congruence. }
+    cbn. split; [reflexivity | intros x []].
+  - cbn. split; [reflexivity|]. intros x [<-|[<-|[]]]; reflexivity.
+Qed.
+
+End StepProps.
